@@ -4,6 +4,7 @@ import (
 	"encoding/json"
 	"fmt"
 	"io/ioutil"
+	"sort"
 	"strings"
 )
 
@@ -484,8 +485,13 @@ func ReadMergeString(s string) (Diff, error) {
 func readMergeInto(d Diff, p Path, n JsonNode) Diff {
 	switch n := n.(type) {
 	case jsonObject:
-		for k, v := range n {
-			d = readMergeInto(d, append(p.clone(), PathKey(k)), v)
+		keys := make([]string, 0, len(n))
+		for k := range n {
+			keys = append(keys, k)
+		}
+		sort.Strings(keys)
+		for _, k := range keys {
+			d = readMergeInto(d, append(p.clone(), PathKey(k)), n[k])
 		}
 		if len(n) == 0 {
 			return append(d, DiffElement{
